@@ -13,18 +13,27 @@ import (
 type RWMutexState struct {
 	Real    sync.RWMutex
 	writer  *Task
-	readers []*Task
+	readers [32]*Task
+	nr      int
 	pending int // writers waiting: blocks new readers, as in Go
 }
 
 //go:norace
 func (m *RWMutexState) holdsRead(t *Task) int {
-	for i, r := range m.readers {
-		if r == t {
+	for i := 0; i < m.nr; i++ {
+		if m.readers[i] == t {
 			return i
 		}
 	}
 	return -1
+}
+
+//go:norace
+func (m *RWMutexState) addReader(t *Task) {
+	if m.nr < len(m.readers) {
+		m.readers[m.nr] = t
+		m.nr++
+	}
 }
 
 //go:norace
@@ -43,7 +52,7 @@ func (m *RWMutexState) Lock() {
 	}
 	w.point(t, KLock, 0)
 	waited := false
-	for m.writer != nil || len(m.readers) > 0 {
+	for m.writer != nil || m.nr > 0 {
 		if !waited {
 			waited = true
 			m.pending++
@@ -69,7 +78,7 @@ func (m *RWMutexState) TryLock() bool {
 	if !t.exiting {
 		w.point(t, KLock, 0)
 	}
-	if m.writer != nil || len(m.readers) > 0 {
+	if m.writer != nil || m.nr > 0 {
 		return false
 	}
 	if !m.Real.TryLock() {
@@ -113,7 +122,7 @@ func (m *RWMutexState) RLock() {
 	t := w.cur
 	if t.exiting {
 		if m.Real.TryRLock() {
-			m.readers = append(m.readers, t)
+			m.addReader(t)
 		}
 		return
 	}
@@ -122,7 +131,7 @@ func (m *RWMutexState) RLock() {
 		Counters[CLockBlocked]++
 		w.block(t, m)
 	}
-	m.readers = append(m.readers, t)
+	m.addReader(t)
 	Counters[CRLockAcquire]++
 	m.Real.RLock()
 }
@@ -143,7 +152,7 @@ func (m *RWMutexState) TryRLock() bool {
 	if !m.Real.TryRLock() {
 		return false
 	}
-	m.readers = append(m.readers, t)
+	m.addReader(t)
 	return true
 }
 
@@ -160,15 +169,19 @@ func (m *RWMutexState) RUnlock() {
 		return
 	}
 	if i < 0 {
-		if len(m.readers) == 0 {
+		if m.nr == 0 {
 			m.Real.RUnlock() // fatal error, as in Go
 			return
 		}
 		i = 0 // RUnlock from another goroutine is legal in Go
 	}
-	m.readers = append(m.readers[:i], m.readers[i+1:]...)
+	for j := i; j+1 < m.nr; j++ {
+		m.readers[j] = m.readers[j+1]
+	}
+	m.nr--
+	m.readers[m.nr] = nil
 	m.Real.RUnlock()
-	if len(m.readers) == 0 {
+	if m.nr == 0 {
 		w.wakeWaiters(m)
 	}
 	if !t.exiting {
@@ -191,12 +204,14 @@ type pooled struct {
 }
 
 type PoolState struct {
-	free []pooled
+	free []pooled // capacity managed by hand: append/copy are instrumented by the race runtime
+	n    int
 	reg  bool
 }
 
 var (
-	pools   []*PoolState
+	pools   [64]*PoolState
+	npools  int
 	poolCfg = PoolCfg{Newest: 1}
 	poolRng rng
 )
@@ -207,8 +222,8 @@ var (
 func SetPoolCfg(c PoolCfg) {
 	poolCfg = c
 	poolRng.s = c.Seed ^ 0xabcdef12345
-	for _, p := range pools {
-		p.free = p.free[:0]
+	for i := 0; i < npools; i++ {
+		pools[i].n = 0
 	}
 }
 
@@ -218,12 +233,15 @@ func dataPtr(x any) unsafe.Pointer { return (*[2]unsafe.Pointer)(unsafe.Pointer(
 func (p *PoolState) Get(newf func() any) any {
 	if !p.reg {
 		p.reg = true
-		pools = append(pools, p)
+		if npools < len(pools) {
+			pools[npools] = p
+			npools++
+		}
 	}
 	if w := active; w != nil && w.cur != nil && !w.cur.exiting {
 		w.point(w.cur, KPool, 0)
 	}
-	n := len(p.free)
+	n := p.n
 	if n == 0 {
 		Counters[CPoolGetFresh]++
 		if newf == nil {
@@ -256,7 +274,11 @@ func (p *PoolState) Get(newf func() any) any {
 		Counters[CPoolGetRandom]++
 	}
 	e := p.free[idx]
-	p.free = append(p.free[:idx], p.free[idx+1:]...)
+	for j := idx; j+1 < p.n; j++ {
+		p.free[j] = p.free[j+1]
+	}
+	p.n--
+	p.free[p.n] = pooled{}
 	if e.task != CurrentTask() {
 		Counters[CPoolCrossTask]++
 	}
@@ -271,7 +293,10 @@ func (p *PoolState) Put(x any) {
 	}
 	if !p.reg {
 		p.reg = true
-		pools = append(pools, p)
+		if npools < len(pools) {
+			pools[npools] = p
+			npools++
+		}
 	}
 	if w := active; w != nil && w.cur != nil && !w.cur.exiting {
 		w.point(w.cur, KPool, 0)
@@ -282,5 +307,13 @@ func (p *PoolState) Put(x any) {
 	}
 	Counters[CPoolPutKeep]++
 	RaceReleaseMerge(dataPtr(x))
-	p.free = append(p.free, pooled{obj: x, task: CurrentTask()})
+	if p.n == len(p.free) {
+		nf := make([]pooled, 2*len(p.free)+8)
+		for j := 0; j < p.n; j++ {
+			nf[j] = p.free[j]
+		}
+		p.free = nf
+	}
+	p.free[p.n] = pooled{obj: x, task: CurrentTask()}
+	p.n++
 }
